@@ -1651,6 +1651,8 @@ def max(*s):
         except: 
             # maybe s[0] is a list or tuple of variables, functions
             # and constants
+            if len(s) != 1 or type(s[0]) not in (list, tuple):
+                raise NotImplementedError
             try: return max(*s[0])
             except: raise NotImplementedError
 
@@ -1690,6 +1692,8 @@ def min(*s):
         except:
             # maybe s[0] is a list or tuple of variables, functions
             # and constants
+            if len(s) != 1 or type(s[0]) not in (list, tuple):
+                raise NotImplementedError
             try: return min(*s[0])
             except: raise NotImplementedError
 
